@@ -45,19 +45,21 @@ Record scase := {
   sc_hist : list item;
   sc_outs : list (option out);          (* what the code returned, per item *)
   sc_image : list (string * sval);      (* final database dump, decoded by key kind *)
-  sc_shapes : list (list wshape)        (* the recorded atomic writes, in order *)
+  sc_shapes : list (list wshape);       (* the recorded atomic writes, in order *)
+  sc_faults : list (list wshape)        (* the write attempts the fault-injecting datastore refused, in order *)
 }.
 
 Definition image_agrees (m : img) (dump : list (string * sval)) : bool :=
   forallb (fun e => match kv_get m (fst e) with Some v => sval_eqb v (snd e) | None => false end) dump
   && Nat.eqb (List.length (kv_keys m)) (List.length dump).
 
-(* 1 = results differ, 2 = final image differs, 3 = write log differs *)
+(* 1 = results differ, 2 = final image differs, 3 = write log differs, 4 = the refused write attempts differ *)
 Definition check_case (c : scase) : list N :=
   let '(m, outs) := run [] (sc_hist c) in
   (if list_eqb oout_eqb outs (sc_outs c) then [] else [1%N]) ++
   (if image_agrees m (sc_image c) then [] else [2%N]) ++
-  (if list_eqb (list_eqb wshape_eqb) (shapes [] (sc_hist c)) (sc_shapes c) then [] else [3%N]).
+  (if list_eqb (list_eqb wshape_eqb) (shapes [] (sc_hist c)) (sc_shapes c) then [] else [3%N]) ++
+  (if list_eqb (list_eqb wshape_eqb) (fault_shapes [] (sc_hist c)) (sc_faults c) then [] else [4%N]).
 
 Fixpoint mismatches_from (i : N) (cs : list scase) : list (N * list N) :=
   match cs with
